@@ -161,7 +161,7 @@ RE_SAN = re.compile(r'(AddressSanitizer: [\w-]+|runtime error: [^\n]{0,120}|Leak
 def run_unit(binp: str, unit: int, entry: int | None = None, vector: int | None = None, timeout: int = 20) -> tuple[dict[tuple[int, int], str], str, int]:
 	"""Returns ({(entry, vector): 'ok\\tvalue' | 'raise\\tclass'}, sanitizer/abort summary, return code)."""
 	args = [binp, str(unit)] + ([str(entry), str(vector)] if entry is not None else [])
-	env = dict(os.environ, ASAN_OPTIONS='detect_leaks=0:abort_on_error=0:halt_on_error=1', UBSAN_OPTIONS='print_stacktrace=0:halt_on_error=1')
+	env = dict(os.environ, ASAN_OPTIONS='detect_leaks=0:abort_on_error=0:halt_on_error=1:detect_stack_use_after_return=1', UBSAN_OPTIONS='print_stacktrace=0:halt_on_error=1')
 	try:
 		p = subprocess.run(args, capture_output=True, text=True, timeout=timeout, env=env, errors='replace')
 	except subprocess.TimeoutExpired:
